@@ -105,6 +105,135 @@ def minFreePagesTo : Nat := (defragToWasteMB * 2 ^ 20) / pageSize
 def slotLo (c i : Nat) : Nat := headerSize + i * slotSize c
 def slotHi (c i : Nat) : Nat := headerSize + (i + 1) * slotSize c
 
+/-! ### pointer layer: the doubly linked lists as the code stores them
+
+  Every free slot is reinterpreted as a `node {prev, next, prevInPage, nextInPage}`; every page header has
+  `{prev, next, freeList}`; the allocator has `lists[class]`, `firstPage[class]`, `lastPage[class]`.
+  Pointers are `Option` (0 = none); a slot pointer is `(page#, slot#)`.  The functions below perform
+  exactly the link writes of the code and READ ONLY POINTERS (never the abstract lists of `ClassSt` /
+  `Page`): `Proofs/C20Ptr.lean` proves that the pointer structure always spells the abstract lists
+  (`Rep`), so that what the code reads through pointers is what the list model says.  Which back-link
+  writes the source contains is regenerated from the source on every run (`Gen.MemClasses.lnk*`). -/
+
+abbrev Slot := Nat × Nat
+
+structure Node where
+  prev : Option Slot := none
+  next : Option Slot := none
+  prevInPage : Option Slot := none
+  nextInPage : Option Slot := none
+
+structure PHdr where
+  prev : Option Nat := none
+  next : Option Nat := none
+  freeList : Option Slot := none
+
+structure PCls where
+  lists : Option Slot := none   -- a.lists[class]
+  first : Option Nat := none    -- a.firstPage[class]
+  last : Option Nat := none     -- a.lastPage[class]
+
+structure Heap where
+  node : KMap Slot Node := KMap.empty
+  hdr : KMap Nat PHdr := KMap.empty
+  cls : KMap Nat PCls := KMap.empty
+
+namespace Heap
+def N (g : Heap) (x : Slot) : Node := (g.node.get? x).getD {}
+def H (g : Heap) (p : Nat) : PHdr := (g.hdr.get? p).getD {}
+def C (g : Heap) (c : Nat) : PCls := (g.cls.get? c).getD {}
+def setN (g : Heap) (x : Slot) (f : Node → Node) : Heap := { g with node := g.node.set x (f (g.N x)) }
+def setH (g : Heap) (p : Nat) (f : PHdr → PHdr) : Heap := { g with hdr := g.hdr.set p (f (g.H p)) }
+def setC (g : Heap) (c : Nat) (f : PCls → PCls) : Heap := { g with cls := g.cls.set c (f (g.C c)) }
+end Heap
+
+/-- optional write (a statement under `if ptr != 0 { … }`) -/
+def onSome {α : Type} (o : Option α) (g : Heap) (f : α → Heap → Heap) : Heap :=
+  match o with | some x => f x g | none => g
+
+/-- uintptrFreeShared, the two push-front blocks (global list, per-page list) for slot x of class c -/
+def hPush (g : Heap) (c : Nat) (x : Slot) : Heap :=
+  -- p.prev = 0 ; if next := a.lists[class]; next != 0 { p.next = next; next.prev = p } else { p.next = a.lists[class] }
+  let old := (g.C c).lists
+  let g := g.setN x (fun n => { n with prev := none, next := old })
+  let g := onSome old g (fun nx g => if lnkPushGlobalBack then g.setN nx (fun n => { n with prev := some x }) else g)
+  -- a.lists[class] = p
+  let g := g.setC c (fun k => { k with lists := some x })
+  -- p.prevInPage = 0 ; if nextInPage := header.freeList; … { p.nextInPage = nextInPage; nextInPage.prevInPage = p } else { p.nextInPage = 0 }
+  let oldp := (g.H x.1).freeList
+  let g := g.setN x (fun n => { n with prevInPage := none, nextInPage := oldp })
+  let g := onSome oldp g (fun nx g => if lnkPushPageBack then g.setN nx (fun n => { n with prevInPage := some x }) else g)
+  -- header.freeList = p
+  g.setH x.1 (fun h => { h with freeList := some x })
+
+/-- uintptrMallocShared / classMalloc, "Allocate from free list": pop `a.lists[class]`, unlink it from
+    its page's list.  Returns the heap unchanged when the list is empty (the code would fault). -/
+def hPop (g : Heap) (c : Nat) : Heap :=
+  match (g.C c).lists with
+  | none => g
+  | some n =>
+    let nn := g.N n
+    -- a.lists[class] = n.next ; if next != 0 { next.prev = 0 }
+    let g := g.setC c (fun k => { k with lists := nn.next })
+    let g := onSome nn.next g (fun nx g => if lnkPopGlobalBack then g.setN nx (fun m => { m with prev := none }) else g)
+    match nn.prevInPage with
+    | none =>
+      -- header.freeList = nextInPage ; if nextInPage != 0 { nextInPage.prevInPage = 0 }
+      let g := g.setH n.1 (fun h => { h with freeList := nn.nextInPage })
+      onSome nn.nextInPage g (fun q g => if lnkPopPageBack then g.setN q (fun m => { m with prevInPage := none }) else g)
+    | some pp =>
+      -- prevInPage.nextInPage = nextInPage ; if nextInPage != 0 { nextInPage.prevInPage = prevInPage }
+      let g := g.setN pp (fun m => { m with nextInPage := nn.nextInPage })
+      onSome nn.nextInPage g (fun q g => if lnkPopPageBack then g.setN q (fun m => { m with prevInPage := some pp }) else g)
+
+/-- "Remove from global free list" (defragClass, and the page-release branch of uintptrFreeShared):
+    unlink node n using its own prev/next. -/
+def hUnlinkG (g : Heap) (c : Nat) (n : Slot) : Heap :=
+  let nn := g.N n
+  match nn.prev with
+  | none =>
+    let g := g.setC c (fun k => { k with lists := nn.next })
+    onSome nn.next g (fun nx g => if lnkPurgeBack then g.setN nx (fun m => { m with prev := none }) else g)
+  | some pv =>
+    let g := g.setN pv (fun m => { m with next := nn.next })
+    onSome nn.next g (fun nx g => if lnkPurgeBack then g.setN nx (fun m => { m with prev := some pv }) else g)
+
+/-- follow a `next`-like field: the nodes visited, at most `fuel` of them -/
+def walk {α : Type} (nx : α → Option α) : Nat → Option α → List α
+  | 0, _ => []
+  | _, none => []
+  | f + 1, some x => x :: walk nx f (nx x)
+
+/-- defragClass, first loop, one page: `for n := header.freeList; n != 0; { nextInPage := n.nextInPage;
+    <unlink n from the global list>; n = nextInPage }` -/
+def hPurgeWalk (c : Nat) : Nat → Option Slot → Heap → Heap
+  | 0, _, g => g
+  | _, none, g => g
+  | f + 1, some n, g => hPurgeWalk c f (g.N n).nextInPage (hUnlinkG g c n)
+
+/-- … followed by `header.freeList = 0` -/
+def hPurge (g : Heap) (c pg fuel : Nat) : Heap :=
+  (hPurgeWalk c fuel (g.H pg).freeList g).setH pg (fun h => { h with freeList := none })
+
+/-- linkSharedPage / newSharedPageLocal: the fresh (zeroed) page p becomes the last page of class c -/
+def hLinkPage (g : Heap) (c p : Nat) : Heap :=
+  let k := g.C c
+  -- header.prev = a.lastPage[class] ; header.next = 0
+  let g := g.setH p (fun _ => { prev := if lnkLinkPagePrev then k.last else none, next := none, freeList := none })
+  -- if a.lastPage[class] != 0 { lastPage.next = p } ; if a.firstPage[class] == 0 { firstPage = p } ; lastPage = p
+  let g := onSome k.last g (fun l g => g.setH l (fun h => { h with next := some p }))
+  g.setC c (fun k => { k with first := if k.first.isNone then some p else k.first, last := some p })
+
+/-- defragClass, "Remove from page linked list" -/
+def hUnlinkPage (g : Heap) (c pg : Nat) : Heap :=
+  let h := g.H pg
+  let g := match h.prev with
+    | some q => g.setH q (fun m => { m with next := h.next })
+    | none => g.setC c (fun k => { k with first := h.next })
+  match h.next with
+  | some q => if lnkUnlinkPageBack then g.setH q (fun m => { m with prev := h.prev }) else g
+  | none => g.setC c (fun k => { k with last := h.prev })
+
 /-! ### state -/
 
 inductive Addr where
@@ -164,6 +293,7 @@ structure State (V : Type) where
   sharedMmaps : Int := 0
   live : KMap Addr (LiveRec V) := KMap.empty   -- ghost
   relog : List (Addr × Addr) := []             -- ghost: (old,new) of every relocate call, latest first
+  heap : Heap := {}                            -- the pointer representation of glist / freeList / plist
 
 def init {V : Type} : State V := {}
 
@@ -209,7 +339,8 @@ def newPage (s : State V) (c : Nat) : State V :=
     cls := s.cls.set c { k with plist := k.plist ++ [p], pageCount := k.pageCount + 1,
                                 freeSlots := k.freeSlots + capOf c, cur := some p }
     bytes := s.bytes + pageSize
-    sharedMmaps := s.sharedMmaps + 1 }
+    sharedMmaps := s.sharedMmaps + 1
+    heap := hLinkPage s.heap c p }
 
 /-- uintptrMallocShared / classMalloc after the "need a new page" test: take a slot of class c.
     Returns the new state and the slot (page, index). -/
@@ -235,7 +366,7 @@ def allocSlot (s : State V) (c : Nat) : Except Err (State V × Nat × Nat) :=
         let k' := { k with glist := rest, freeSlots := k.freeSlots - 1 }
         -- node writes: next.prev := 0 ; per-page neighbours' prevInPage / nextInPage
         let wr := headAddrs rest ++ (nbrs h.freeList i).map (Addr.sh p)
-        .ok ({ s with pages := s.pages.set p h', cls := s.cls.set c k', mem := clobber s.mem wr }, p, i)
+        .ok ({ s with pages := s.pages.set p h', cls := s.cls.set c k', mem := clobber s.mem wr, heap := hPop s.heap c }, p, i)
 
 /-- a slot of class c is handed out as a slice with the given Len/Cap and payload value:
     `if lists==0 && pages==0 {new page}; allocSlot; write header`, ghost: it becomes live. -/
@@ -280,7 +411,7 @@ def freeSlot (s : State V) (p i : Nat) (h : Page) : State V :=
     let wr := [Addr.sh p i] ++ headAddrs k.glist ++ headSlots p h.freeList
     { s with pages := s.pages.set p { h with used := h.used - 1, free := h.free + 1, freeList := i :: h.freeList },
              cls := s.cls.set c { k with freeSlots := k.freeSlots + 1, glist := (p, i) :: k.glist },
-             mem := clobber s.mem wr }
+             mem := clobber s.mem wr, heap := hPush s.heap c (p, i) }
 
 /-- Allocator.Free(b) -/
 def free (s : State V) (a : Addr) : Except Err (State V) :=
@@ -353,7 +484,7 @@ def beginEvac (s : State V) (c pg : Nat) : Except Err (State V) :=
     .ok { s with pages := s.pages.set pg { h with evac := true, saved := h.freeList, freeList := [], scan := 0 },
                  cls := s.cls.set c { k with cur := if k.cur = some pg then none else k.cur,
                                              glist := k.glist.filter (fun (q, _) => q ≠ pg) },
-                 mem := clobber s.mem wr }
+                 mem := clobber s.mem wr, heap := hPurge s.heap c pg h.brk }
 
 /-- one iteration of the slot loop of page pg (`slotAddr` = slot `scan`): a slot not in the saved
     free set is relocated: classMalloc, copy header + Len bytes, relocate callback, classFree. -/
@@ -398,7 +529,8 @@ def endEvac (s : State V) (c pg : Nat) : Except Err (State V) :=
                  cls := s.cls.set c { k with plist := k.plist.erase pg, pageCount := k.pageCount - 1,
                                              freeSlots := k.freeSlots - h.free,
                                              cur := if k.cur = some pg then none else k.cur },
-                 bytes := s.bytes - pageSize, sharedMmaps := s.sharedMmaps - 1 }
+                 bytes := s.bytes - pageSize, sharedMmaps := s.sharedMmaps - 1,
+                 heap := hUnlinkPage s.heap c pg }
 
 def evacPage (s : State V) (c pg : Nat) : Except Err (State V) :=
   match s.pages.get? pg with
